@@ -1,5 +1,6 @@
 From A1 Require Import Base.Res.
 From A1 Require Export Extract.OpsDer.
+From A1 Require Extract.OpsUperRef.
 From A1 Require Extract.OpsBits Extract.OpsPer Extract.OpsUper Extract.OpsLex Extract.OpsIntTy Extract.OpsTags Extract.OpsParse Extract.OpsCodegen Extract.OpsProto.
 Local Open Scope Z_scope.
 
@@ -11,6 +12,7 @@ Definition run (dev : bool) (op : Z) (args : list Z) : list Z :=
   if (2000 <=? op) && (op <? 2100) then run_der op args
   else if (1100 <=? op) && (op <? 1200) then OpsBits.run_bits m op args
   else if (1000 <=? op) && (op <? 1100) then OpsPer.run_per m op args
+  else if (1250 <=? op) && (op <? 1260) then OpsUperRef.run_uperref m op args
   else if (1200 <=? op) && (op <? 1300) then OpsUper.run_uper m op args
   else if (3000 <=? op) && (op <? 3100) then OpsLex.run_lex m op args
   else if (3100 <=? op) && (op <? 3200) then OpsIntTy.run_intty m op args
